@@ -22,8 +22,9 @@ ASSUMPTIONS = ['property values drawn from the valid domain: delivery_mode '
 def shards(tier, seed):
     n = 16
     draws = 1 if tier == 'quick' else 12
-    return [{'name': 'm%d' % i, 'i': i, 'n': n, 'draws': draws}
-            for i in range(n)]
+    return common.with_configs(
+        [{'name': 'm%d' % i, 'i': i, 'n': n, 'draws': draws}
+         for i in range(n)], common.ALL_CONFIGS, take=1)
 
 
 def cases(shard, rnd):
@@ -57,7 +58,16 @@ def run_case(case, rec):
     from pamqp import commands, header
     rec.ev()
     props, size, ch = case['props'], case['size'], case['ch']
+    if case.get('prefix'):
+        common.replay_history(case['prefix'])
+        case = {k: v for k, v in case.items() if k != 'prefix'}
+    if props.get('headers'):
+        common.fail_then_retry_table(props['headers'], common.RND)
+        rec.count('failed_encodes_interleaved')
+    case = common.H(case)
     common.set_legacy(False)
+    if rec.evaluations % 5 == 0:
+        common.disturb_encoder(common.RND, 1)
     c = call(commands.Basic.Properties, **props)
     if not c.ok:
         rec.count('refused_at_construct')
@@ -83,6 +93,10 @@ def run_case(case, rec):
                       'property values' % m.describe(), case)
         return
     data = m.value
+    # corrupted relatives of this header (same flag pattern) are decoded and
+    # refused BEFORE the valid one
+    common.disturb_decoder(data, common.RND, 2)
+    rec.count('failed_decodes_interleaved', 2)
     u = common.lib_unmarshal(data)
     if not u.ok:
         rec.violation('decode-failed:%s' % (u.exc_type or 'budget'),
@@ -142,6 +156,30 @@ def run_case(case, rec):
         rec.violation('not-grammar-valid', 'own header is not grammar '
                       'valid: %s' % e, case, observed=common.hexs(data))
         return
+    # the publisher reuses the properties object: it changes the headers
+    # table in place and marshals the same object again
+    pobj = h.value.properties
+    if isinstance(props.get('headers'), dict) and props['headers'] and \
+            pobj.headers is props['headers']:
+        common.mutate_in_place(props['headers'])
+        m3 = common.lib_marshal(h.value, ch)
+        u3 = common.lib_unmarshal(m3.value) if m3.ok else m3
+        if not u3.ok:
+            rec.violation('re-encode-after-input-change-failed',
+                          'marshal of the same header after its headers '
+                          'table was changed in place: ' + u3.describe(),
+                          case)
+            return
+        d3 = common.compare_values(
+            expected_props(props),
+            boundary.props_values(u3.value[2].properties))
+        if d3:
+            rec.violation('stale-encoding-after-input-change',
+                          'headers were changed in place and the same '
+                          'object marshalled again, but the frame carries '
+                          'the old content: ' + d3[2], case)
+            return
+        rec.count('encode_change_encode_ok')
     rec.count('roundtrips_ok')
     for n, v in props.items():
         rec.count('set:' + n)
